@@ -1373,9 +1373,13 @@ class FlowProposal(RejectionProposal):
             logger.debug(f"Populating with worst point: {worst_point}")
             if self.compute_radius_with_all:
                 logger.debug("Using previous live points to compute radius")
-                worst_point = self.training_data
+                # Do not overwrite worst_point, it is used again when
+                # computing the acceptance
+                radius_points = self.training_data
+            else:
+                radius_points = worst_point
             worst_z = self.forward_pass(
-                worst_point, rescale=True, compute_radius=True
+                radius_points, rescale=True, compute_radius=True
             )[0]
             r = self.radius(worst_z)
             if self.max_radius and r > self.max_radius:
